@@ -447,7 +447,7 @@ def job_scripts(seed, n_random, exhaustive_len):
     def api():
         k = r.choice(["start", "start", "stop", "gstop", "restart", "grestart", "tryrestart", "gtryrestart", "signal", "towait", "towait", "delete", "deletenow", "run", "run", "seterr", "unseterr", "continue",
                       "runasync", "seterrasync", "sethook", "sethookasync"])
-        g = r.choice([1, 2, 9, 10, 15, 15, 15, 0, 64]); ms = r.choice([0, 1, 5, 10, 20, 50, 100])
+        g = r.choice([1, 2, 3, 9, 10, 12, 15, 15, 15, 0, 64]); ms = r.choice([0, 1, 5, 10, 20, 50, 100])
         if k in ("gstop", "grestart", "gtryrestart"): return f"{k}:{g}:{ms}"
         if k == "signal": return f"signal:{g}"
         if k in ("run", "runasync"): return f"{k}:{r.randrange(100)}"
